@@ -88,6 +88,24 @@ def instances(tier, rng):
                 if rng.random() < 0.5:
                     r["ends"] = [rng.choice(u["nodes"])]
                 node_insts.append(r)
+    # an element measured far too low where several heavy routes meet: the planted flow with its largest value replaced by 0 or 1.
+    # The planted flow is passed along as a WITNESS (TLC re-validates that it is a flow): the answer may not be farther away
+    big = [u for u in vlib.universe("dag", 4, k=3, w=3, cap=12) + C.motifs()[0] + C.motifs()[1] if len(u["proutes"]) >= 2]
+    heavy = [C.replant(u, rng, weights=(4, 5, 5), max_extra=0) for u in C.motifs()[0] + C.motifs()[1] if len(u["proutes"]) >= 2]
+    for u in C.spread(big, 30 if quick else 300) + C.spread(heavy, 14 if quick else 60):
+        i = max(range(len(u["ew"])), key=lambda j: u["ew"][j])
+        if u["ew"][i] < 4:
+            continue
+        for low in (0, 1):
+            for wt, num, den in (("int", 1, 1), ("float", 1, 2)):
+                r = C.base(u, "MinErrorFlow")
+                r["wit_ew"] = list(u["ew"])
+                r["ew"] = list(u["ew"])
+                r["ew"][i] = low
+                r["wt"], r["num"], r["den"] = wt, num, den
+                r["cyc"] = C._has_cycle(u)
+                r["has_starts_or_ends"] = False
+                insts.append(r)
     return insts, node_insts, groups
 
 
@@ -143,6 +161,8 @@ def run(tier, seed):
             continue
         if any(w == vlib.NONE for w in r["ew"]):
             continue
+        if r.get("wit_ew"):
+            continue      # (far-off inputs: the witness bounds the answer; the bump search would have to walk the whole distance)
         D = 2
         # observed objective in data units * D, strictly-better bound
         obs = (r["c_obj"] * r["den"] * D) / (r["num"] * vlib.UNIT)
